@@ -433,6 +433,7 @@ type RelySpec struct {
 	Modifies []*Clause
 	Ensures  []*Clause
 	Snap     string // label of the snapshot taken after the call returned
+	PreSnap  string // label of the snapshot taken when the call is made (before the interference)
 }
 
 type LetDef struct {
@@ -627,14 +628,21 @@ func ParseSpecText(text, path, pkgPath string) (*SpecFile, error) {
 			}
 			cur.Lets = append(cur.Lets, LetDef{strings.TrimSpace(rest[:i]), e})
 		case "rely":
-			// rely <key> [snap <label>]
+			// rely <key> [snap <label>] [presnap <label>]
 			f := strings.Fields(rest)
 			if len(f) == 0 {
 				return nil, errf("rely needs a call key")
 			}
 			curRely = &RelySpec{Key: strings.Trim(f[0], "\"")}
-			if len(f) >= 3 && f[1] == "snap" {
-				curRely.Snap = f[2]
+			for i := 1; i+1 < len(f); i += 2 {
+				switch f[i] {
+				case "snap":
+					curRely.Snap = f[i+1]
+				case "presnap":
+					curRely.PreSnap = f[i+1]
+				default:
+					return nil, errf("rely: unknown option %s", f[i])
+				}
 			}
 			if cur.Relies == nil {
 				cur.Relies = map[string]*RelySpec{}
